@@ -70,40 +70,45 @@ func fnInfo(ctx *cmdContext, args map[string]any) (output respValue, err error) 
 
 	uptime := time.Since(started)
 
+	// the counters are written by every connection: read them as one consistent copy
+	infoMu.Lock()
+	stats := info
+	infoMu.Unlock()
+
 	data := map[string]any{}
-	data["run_id"] = info.run_id
+	data["run_id"] = stats.run_id
 	data["tcp_port"] = ctx.cd.port
 	data["server_time_usec"] = uptime.Microseconds()
-	data["update_in_seconds"] = info.update_in_seconds
-	data["update_in_days"] = info.update_in_days
-	data["connected_clients"] = info.connected_clients
-	data["used_memory"] = info.used_memory
-	data["used_memory_rss"] = info.used_memory_rss
-	data["used_memory_peak"] = info.used_memory_peak
-	data["used_memory_peak_perc"] = info.used_memory_peak_perc
-	data["used_memory_overhead"] = info.used_memory_overhead
-	data["used_memory_startup"] = info.used_memory_startup
-	data["used_memory_dataset"] = info.used_memory_dataset
-	data["used_memory_dataset_perc"] = info.used_memory_dataset_perc
-	data["allocator_allocated"] = info.allocator_allocated
-	data["allocator_active"] = info.allocator_active
-	data["allocator_resident"] = info.allocator_resident
-	data["total_system_memory"] = info.total_system_memory
-	data["rdb_last_save_time"] = info.rdb_last_save_time
-	data["rdb_saves"] = info.rdb_saves
-	data["total_connections_received"] = info.total_connections_received
-	data["total_commands_processed"] = info.total_commands_processed
-	data["total_net_input_bytes"] = info.total_net_input_bytes
-	data["total_net_output_bytes"] = info.total_net_output_bytes
-	data["total_error_replies"] = info.total_error_replies
-	data["total_reads_processed"] = info.total_reads_processed
-	data["total_writes_processed"] = info.total_writes_processed
-	data["keys"] = info.keys
+	data["update_in_seconds"] = stats.update_in_seconds
+	data["update_in_days"] = stats.update_in_days
+	data["connected_clients"] = stats.connected_clients
+	data["used_memory"] = stats.used_memory
+	data["used_memory_rss"] = stats.used_memory_rss
+	data["used_memory_peak"] = stats.used_memory_peak
+	data["used_memory_peak_perc"] = stats.used_memory_peak_perc
+	data["used_memory_overhead"] = stats.used_memory_overhead
+	data["used_memory_startup"] = stats.used_memory_startup
+	data["used_memory_dataset"] = stats.used_memory_dataset
+	data["used_memory_dataset_perc"] = stats.used_memory_dataset_perc
+	data["allocator_allocated"] = stats.allocator_allocated
+	data["allocator_active"] = stats.allocator_active
+	data["allocator_resident"] = stats.allocator_resident
+	data["total_system_memory"] = stats.total_system_memory
+	data["rdb_last_save_time"] = stats.rdb_last_save_time
+	data["rdb_saves"] = stats.rdb_saves
+	data["total_connections_received"] = stats.total_connections_received
+	data["total_commands_processed"] = stats.total_commands_processed
+	data["total_net_input_bytes"] = stats.total_net_input_bytes
+	data["total_net_output_bytes"] = stats.total_net_output_bytes
+	data["total_error_replies"] = stats.total_error_replies
+	data["total_reads_processed"] = stats.total_reads_processed
+	data["total_writes_processed"] = stats.total_writes_processed
+	data["keys"] = stats.keys
 
-	data["used_memory_human"] = info.humanValue(info.used_memory)
-	data["used_memory_rss_human"] = info.humanValue(info.used_memory_rss)
-	data["used_memory_peak_human"] = info.humanValue(info.used_memory_peak)
-	data["total_system_memory_human"] = info.humanValue(info.total_system_memory)
+	data["used_memory_human"] = stats.humanValue(stats.used_memory)
+	data["used_memory_rss_human"] = stats.humanValue(stats.used_memory_rss)
+	data["used_memory_peak_human"] = stats.humanValue(stats.used_memory_peak)
+	data["total_system_memory_human"] = stats.humanValue(stats.total_system_memory)
 
 	// construct output for the requested sections
 	var sb strings.Builder
